@@ -66,6 +66,14 @@ theorem conOk_frame (c c' : Con) (h : ConOk c) (h1 : c'.bc = c.bc) (h2 : c'.cnon
   rw [h1, h2, h3, h4, h5, h6]; exact h
 
 /-- a program-counter change to a state without snapshot -/
+theorem conOk_pc' (c' : Con) (hwf : c'.bc.WF)
+    (hpc : match c'.pc with
+      | .calling _ _ _ | .incb _ _ _ _ | .afterCb _ _ _ | .recheck _ _ _ | .waiting _ _ => False
+      | _ => True) : ConOk c' := by
+  unfold ConOk at *
+  refine ⟨hwf, ?_⟩
+  cases hp : c'.pc <;> simp [hp] at hpc ⊢
+
 theorem conOk_pc (c c' : Con) (h : ConOk c) (h1 : c'.bc = c.bc)
     (hpc : match c'.pc with
       | .calling _ _ _ | .incb _ _ _ _ | .afterCb _ _ _ | .recheck _ _ _ | .waiting _ _ => False
@@ -181,7 +189,7 @@ theorem cinv_setCon (s : CSt) (a : Nat) (c : Con) (hb : Inv s.b)
   · exact hok
   · exact hc b x h
 
-theorem exitRel_inv (s s' : CSt) (a : Nat) (c : Con) (v e : Nat) (hi : CInv s) (hc : ConOk c)
+theorem exitRel_inv (s s' : CSt) (a : Nat) (c : Con) (v e : Nat) (hi : CInv s) (hc : c.bc.WF)
     (h : exitRel s a c v e = some s') : CInv s' := by
   unfold exitRel at h
   cases hst : step s.b (.selfRelSwap a) with
@@ -255,5 +263,204 @@ theorem cstep_inv_base (s s' : CSt) (e : Ev) (hi : CInv s) (hs : cstep s (.base 
     subst hs
     rename_i b' hst
     exact generic b' hst
+
+
+theorem cstep_inv (s s' : CSt) (e : CEv) (hi : CInv s) (hs : cstep s e = some s') : CInv s' := by
+  have keep := fun (x : Nat) (y : Con) (hy : getCon s x = some y) => hi.cons x y hy
+  cases e with
+  | base e => exact cstep_inv_base s s' e hi hs
+  | inv a op =>
+    simp only [cstep] at hs
+    cases hst : step s.b (.invHook a) with
+    | none => simp [hst] at hs
+    | some b' =>
+      simp [hst] at hs; subst hs
+      refine ⟨step_inv s.b _ b' hi.base hst, ?_⟩
+      intro x y hy
+      rcases getCon_append_some s b' _ x y hy with h | h
+      · exact keep x y h
+      · rw [h]; exact conOk_init op
+  | snap a =>
+    simp only [cstep] at hs
+    cases hc : getCon s a with
+    | none => simp [hc] at hs
+    | some c =>
+      simp only [hc] at hs
+      split at hs <;> try simp at hs
+      have hok := keep a c hc
+      obtain ⟨g1, g2, g3, g4, g5, g6, g7⟩ := Bcast.getWaitCh_spec c.bc hok.1
+      split at hs
+      · exact exitRel_inv s s' a _ 0 c.ce hi g7 hs
+      · split at hs <;> simp at hs <;> subst hs
+        · rename_i hce hres
+          refine cinv_setCon s a _ hi.base keep ⟨g7, ?_⟩
+          simp only
+          refine ⟨⟨g2, Nat.le_refl _, ?_⟩, fun _ => ⟨hres, rfl, by simpa using hce⟩⟩
+          simp [g5]
+        · refine cinv_setCon s a _ hi.base keep ⟨g7, ?_⟩
+          simp only
+          refine ⟨g2, Nat.le_refl _, ?_⟩
+          simp [g5]
+  | watch a =>
+    simp only [cstep] at hs
+    cases hc : getCon s a with
+    | none => simp [hc] at hs
+    | some c =>
+      simp only [hc] at hs
+      split at hs <;> try simp at hs
+      all_goals
+        obtain ⟨_, rfl⟩ := hs
+        exact cinv_setCon s a _ hi.base keep (conOk_frame c _ (keep a c hc) rfl rfl rfl rfl rfl rfl)
+  | cbin a m v =>
+    simp only [cstep] at hs
+    cases hc : getCon s a with
+    | none => simp [hc] at hs
+    | some c =>
+      simp only [hc] at hs
+      split at hs <;> try simp at hs
+      rename_i v' n ch hpc
+      obtain ⟨⟨rfl, rfl⟩, rfl⟩ := hs
+      have hok := keep a c hc
+      refine cinv_setCon s a _ hi.base keep ?_
+      unfold ConOk SnapOk at hok ⊢
+      rw [hpc] at hok
+      exact ⟨hok.1, hok.2⟩
+  | cbout a m r =>
+    simp only [cstep] at hs
+    cases hc : getCon s a with
+    | none => simp [hc] at hs
+    | some c =>
+      simp only [hc] at hs
+      split at hs <;> try simp at hs
+      rename_i m' v n ch hpc
+      obtain ⟨_, rfl⟩ := hs
+      have hok := keep a c hc
+      refine cinv_setCon s a _ hi.base keep ?_
+      unfold ConOk SnapOk at hok ⊢
+      rw [hpc] at hok
+      exact ⟨hok.1, hok.2.1⟩
+  | check a =>
+    simp only [cstep] at hs
+    cases hc : getCon s a with
+    | none => simp [hc] at hs
+    | some c =>
+      simp only [hc] at hs
+      split at hs <;> try simp at hs
+      rename_i r n ch hpc
+      have hok := keep a c hc
+      split at hs
+      · exact exitRel_inv s s' a c 0 9 hi hok.1 hs
+      · simp at hs; subst hs
+        refine cinv_setCon s a _ hi.base keep ?_
+        unfold ConOk SnapOk at hok ⊢
+        rw [hpc] at hok
+        exact ⟨hok.1, hok.2⟩
+  | recheck a =>
+    simp only [cstep] at hs
+    cases hc : getCon s a with
+    | none => simp [hc] at hs
+    | some c =>
+      simp only [hc] at hs
+      split at hs <;> try simp at hs
+      rename_i r n ch hpc
+      have hok := keep a c hc
+      split at hs
+      · exact exitRel_inv s s' a c 0 r hi hok.1 hs
+      · simp at hs; subst hs
+        refine cinv_setCon s a _ hi.base keep ?_
+        unfold ConOk SnapOk at hok ⊢
+        rw [hpc] at hok
+        exact ⟨hok.1, hok.2⟩
+  | waitCancel a =>
+    simp only [cstep] at hs
+    cases hc : getCon s a with
+    | none => simp [hc] at hs
+    | some c =>
+      simp only [hc] at hs
+      split at hs <;> try simp at hs
+      split at hs <;> try simp at hs
+      exact exitRel_inv s s' a c 0 9 hi (keep a c hc).1 hs
+  | await a =>
+    simp only [cstep] at hs
+    cases hc : getCon s a with
+    | none => simp [hc] at hs
+    | some c =>
+      simp only [hc] at hs
+      split at hs <;> try simp at hs
+      split at hs <;> try simp at hs
+      rename_i v e _
+      split at hs
+      · exact exitRel_inv s s' a c v e hi (keep a c hc).1 hs
+      · simp at hs; subst hs
+        exact cinv_setCon s a _ hi.base keep (conOk_pc' _ (keep a c hc).1 (by simp))
+  | awaitCancel a =>
+    simp only [cstep] at hs
+    cases hc : getCon s a with
+    | none => simp [hc] at hs
+    | some c =>
+      simp only [hc] at hs
+      split at hs <;> try simp at hs
+      exact exitRel_inv s s' a c 0 9 hi (keep a c hc).1 hs
+  | ret a v e =>
+    simp only [cstep] at hs
+    cases hc : getCon s a with
+    | none => simp [hc] at hs
+    | some c =>
+      simp only [hc] at hs
+      split at hs <;> try simp at hs
+      · obtain ⟨_, rfl⟩ := hs
+        exact cinv_setCon s a _ hi.base keep (conOk_pc' _ (keep a c hc).1 (by simp))
+      · obtain ⟨_, hs⟩ := hs
+        split at hs <;> simp at hs
+        subst hs
+        rename_i k pc live flag self told hth
+        have hb := inv_ref_upd s.b a k pc .retd live flag flag self self told s.b.owner hi.base hth
+        exact cinv_setCon { s with b := _ } a _ hb keep (conOk_pc' _ (keep a c hc).1 (by simp))
+  | envCancelCall a =>
+    simp only [cstep] at hs
+    cases hc : getCon s a with
+    | none => simp [hc] at hs
+    | some c =>
+      simp [hc] at hs; subst hs
+      exact cinv_setCon s a _ hi.base keep (conOk_frame c _ (keep a c hc) rfl rfl rfl rfl rfl rfl)
+  | goRel a =>
+    simp only [cstep] at hs
+    cases hc : getCon s a with
+    | none => simp [hc] at hs
+    | some c =>
+      simp only [hc] at hs
+      split at hs <;> try simp at hs
+      cases hst : step s.b (.selfRelSwap a) with
+      | none => simp [hst] at hs
+      | some b' =>
+        simp [hst] at hs; subst hs
+        exact cinv_setCon { s with b := b' } a _ (step_inv s.b _ b' hi.base hst) keep
+          (conOk_frame c _ (keep a c hc) rfl rfl rfl rfl rfl rfl)
+  | goCb a =>
+    simp only [cstep] at hs
+    cases hc : getCon s a with
+    | none => simp [hc] at hs
+    | some c =>
+      simp only [hc] at hs
+      split at hs <;> simp at hs
+      subst hs
+      exact cinv_setCon s a _ hi.base keep (conOk_frame c _ (keep a c hc) rfl rfl rfl rfl rfl rfl)
+  | probeCtx a m cc =>
+    simp only [cstep] at hs
+    cases hc : getCon s a with
+    | none => simp [hc] at hs
+    | some c =>
+      simp only [hc] at hs
+      split at hs <;> try simp at hs
+      obtain ⟨_, rfl⟩ := hs; exact hi
+  | probe v e =>
+    simp only [cstep] at hs; split at hs <;> simp at hs; subst hs; exact hi
+  | quiesce B =>
+    simp only [cstep] at hs; split at hs <;> simp at hs; subst hs; exact hi
+
+theorem cinit_inv : CInv ({} : CSt) := ⟨init_inv, by intro a c h; simp [getCon] at h⟩
+
+theorem creachable_inv (es : List CEv) (s : CSt) (h : cmodel.run cmodel.init es = some s) : CInv s :=
+  cmodel.run_invariant CInv (fun s e s' hi hs => cstep_inv s s' e hi hs) _ _ es cinit_inv h
 
 end UtilModel.RefCount.Cons
